@@ -423,6 +423,29 @@ func work(ctx *runner.Ctx) {
 			}
 		}
 	}
+	// two consecutive AND/OR instruction circuits whose gates pair the SAME wire of the first operand with different
+	// wires of the second: gate i of the second circuit reads a[k+i] like gate k+i of the first. Per-gate tweaks
+	// that overlap between the two circuits would hash one label under one tweak twice.
+	for _, w := range []int{4, 8} {
+		for _, o1 := range []string{"&", "|"} {
+			for _, o2 := range []string{"&", "|"} {
+				for k := 0; k < w; k++ {
+					for si, s2 := range []string{"b", "(b >> 1)", "(b << 1)"} {
+						if quick && (k+si)%2 == 1 && w == 8 {
+							continue
+						}
+						src := fmt.Sprintf("package main\nfunc main(a, b uint%d) (uint%d, uint%d) {\n\tx := a %s b\n\ty := (a >> %d) %s %s\n\treturn x, y\n}\n", w, w, w, o1, k, o2, s2)
+						for ii, in := range [][2]string{{"165", "90"}, {"255", "102"}, {"15", "240"}} {
+							if w == 4 {
+								in = [][2]string{{"5", "10"}, {"15", "6"}, {"9", "3"}}[ii]
+							}
+							cases = append(cases, cs{Mode: "stream", Src: src, G: in[0], E: in[1], OT: "co", Seed: uint64(ctx.Seed) + uint64(ii) + uint64(k)})
+						}
+					}
+				}
+			}
+		}
+	}
 	// a stride through the statement-level and cast families of the C03 program generator (streaming, two-argument mains)
 	{
 		n := 0
